@@ -70,8 +70,12 @@ class StereoCondensedReactionGraph(StereoMolGraph, CondensedReactionGraph):
         self._bond_stereo_change = defaultdict(ChangeDict[BondStereo])
 
         if mol_graph and isinstance(mol_graph, StereoCondensedReactionGraph):
-            self._atom_stereo_change.update(mol_graph._atom_stereo_change)
-            self._bond_stereo_change.update(mol_graph._bond_stereo_change)
+            self._atom_stereo_change.update(
+                deepcopy(mol_graph._atom_stereo_change)
+            )
+            self._bond_stereo_change.update(
+                deepcopy(mol_graph._bond_stereo_change)
+            )
 
     def __hash__(self) -> int:
         if self.n_atoms == 0:
